@@ -17,7 +17,7 @@
     ([wf_event]).  Not modelled: tail pruning, Store.Append failing. *)
 From Coq Require Import List.
 From GH Require Import Base.Prelude Model.Verify Model.Ranges Model.Syncer
-  Proofs.RangesP Proofs.SyncerP Proofs.SyncerInvP.
+  Proofs.RangesP Proofs.SyncerP Proofs.SyncerInvP Proofs.SyncerLiveP.
 
 Section c03.
 Variables (drift : Z) (tv : hdr -> hdr -> tvres).
@@ -114,6 +114,22 @@ Theorem C03_sparse_answer_refused : forall (a : ganswer) (c : cfg) k hs,
   ss_err (c_state c') = Some SENonAdj.
 Proof. exact nonadjacent_refused. Qed.
 
+(** The theorems above speak about every schedule of the machine [step], in
+    which each program counter of a syncStore.Append (check / head := / write) is
+    a step of its own.  Since /repo 40dc6a8 an Append holds a lock and is ONE step
+    ([astep]); every run of [astep] is a run of [step], so everything above holds
+    for the code as it is.  With the Append atomic, in addition, for every
+    schedule and arbitrary inputs: the shim's head is the highest header ever
+    handed to the Store and at quiescence it is the Store's head. *)
+Theorem C03_atomic_append_runs_are_runs : forall drift tv (es : list event) (c : cfg),
+  exists es', arun drift tv c es = run drift tv c es' /\
+    (forall W : event -> Prop, W (EL GErr) -> (forall i, W (ET i)) -> Forall W es -> Forall W es').
+Proof. exact arun_run. Qed.
+
+Theorem C03_quiescent_shim_head_is_store_head : forall (tail : N) (c : cfg),
+  Ainv tail c -> all_quiet c -> h_height (c_cache c) = rs_head (c_store c).
+Proof. exact quiet_shim_is_store. Qed.
+
 (** non-vacuity: a schedule with a forged head, a duplicate, a stale head, an
     over-long answer racing a verifier call inside syncStore.Append *)
 Example C03_example :
@@ -159,6 +175,8 @@ Print Assumptions C03_only_allowed_provenance.
 Print Assumptions C03_rejected_never_target.
 Print Assumptions C03_verdict_kept.
 Print Assumptions C03_head_not_replaced.
+Print Assumptions C03_atomic_append_runs_are_runs.
+Print Assumptions C03_quiescent_shim_head_is_store_head.
 Print Assumptions C03_shim_accepts_iff_run.
 Print Assumptions C03_consecutive_is_run.
 Print Assumptions C03_sparse_answer_refused.
